@@ -23,7 +23,7 @@ func init() {
 		Explanation: "C10.lang: L(roman.pattern) equals the reference language built from the statement (any number of M; per position five? one{0,4} | one five | one ten; case-insensitive), decided on DFAs with a shortest witness on difference. " +
 			"C10.same: Valid and DefaultParser share checkInputLength and match the same pattern; after a successful match the parser has no error return. " +
 			"C10.case: the set of byte constants against which raw input bytes are compared in the value function (propagated through the groups table and ±lowerShift) is closed under ASCII case swap and contained in the regexp alphabet (or the input is case-normalised first). " +
-			"C10.groups: groups = (100,D,M),(10,L,C),(1,V,X) in capture order, group i evaluated on capture i+2, results summed; thousands = len(capture 1) × 1000. " +
+			"C10.groups: DefaultParser evaluated abstractly (non-empty input within the limit, the match returning five opaque captures, the groups table resolved to its rows, the value function uninterpreted): the result is len(capture 1) × 1000 + value(capture 2; 100, D, M) + value(capture 3; 10, L, C) + value(capture 4; 1, V, X), each term once, in any order of summation. " +
 			"C10.value: the value function is extracted as a decision table over (length, first two bytes vs five/ten symbol in either case); that table is evaluated inside the checker on every word of each capture group's finite language against an independent roman evaluator. C10.empty, S-ERRZERO, S-WRAP, typed errors, limit strictness for package roman.",
 		NotDecided:  []string{"uint64 overflow of len(capture 1) × 1000 (needs > 1.8e16 M, beyond any input limit)"},
 		Assumptions: []string{"regexp/syntax compiles the pattern to the automaton regexp executes"},
@@ -34,7 +34,7 @@ func init() {
 func runC10(e *Env) {
 	ruleC10Lang(e)
 	ruleC10Same(e)
-	ruleC10Groups(e)
+	ruleRomanSum(e, "C10.groups")
 	ruleDeleg(e, "C10.deleg", "roman")
 	e.S.Floor("C10.deleg", 12)
 	ruleC10Value(e)
@@ -46,7 +46,7 @@ func runC10(e *Env) {
 			e.S.Obs[i].Rule = "C10.empty"
 		}
 	}
-	e.S.Floor("C10.groups", 6)
+	e.S.Floor("C10.groups", 1)
 	e.S.Floor("C10.empty", 2)
 	// the value function(s): in-repo callees of the parser that receive an element of the sub-match slice
 	if dp := e.Fn("C10.case", "roman", "DefaultParser"); dp != nil {
@@ -67,6 +67,19 @@ func runC10(e *Env) {
 					seen[callee] = true
 					idx := ai
 					e.Flow(func(c *flow.Ctx) { c.RuleCaseClosure(callee, idx, alphabet) })
+				}
+			}
+		}
+		// the call may sit in a helper of the parser: fall back to the recorded value function (rename and parameter
+		// reordering followed) and its byte-sequence parameter
+		if len(seen) == 0 {
+			if pg := e.F("roman", "parseGroup"); pg != nil {
+				idx := 0
+				if perm := e.ParamPerm("roman", "parseGroup", pg); perm != nil {
+					idx = perm[0]
+				}
+				if idx < len(pg.Params) {
+					e.Flow(func(c *flow.Ctx) { c.RuleCaseClosure(pg, idx, alphabet) })
 				}
 			}
 		}
@@ -475,7 +488,7 @@ func ruleGroupValue(e *Env, rule string, digits map[int]map[string]int) {
 	mk := func() []pred.Val {
 		return []pred.Val{pred.Sym{Name: "input"}, pred.Sym{Name: "unit"}, pred.Sym{Name: "digit5"}, pred.Sym{Name: "digit10"}}
 	}
-	leaves, err := extractTree(e.P.SSA, pg, mk, nil, nil, keyOf, binDomain, prune)
+	leaves, err := extractTree(e.P.SSA, pg, e.Permuted("roman", "parseGroup", pg, mk), nil, nil, keyOf, binDomain, prune)
 	if err != nil {
 		e.S.Unk(rule, site, "table", err.Error(), e.Pos(pg))
 		return
@@ -675,4 +688,164 @@ func romanValue(s string) int64 {
 // isSubmatchCallee: the sibling sub-match functions with the same result contract (nil or NumSubexp+1 entries).
 func isSubmatchCallee(name string) bool {
 	return name == "(*regexp.Regexp).FindSubmatch" || name == "(*regexp.Regexp).FindStringSubmatch"
+}
+
+// ruleRomanSum: roman.DefaultParser's result decided by its meaning. The parser is evaluated with a non-empty input
+// within the limit, the regexp match returning five opaque captures, the groups table resolved to its rows and the
+// value function left uninterpreted: the result must be the sum of len(capture 1) × 1000 and the value function
+// applied to (capture 2, 100, 'D', 'M'), (capture 3, 10, 'L', 'C'), (capture 4, 1, 'V', 'X') — each once, in any
+// order of summation, whether the loop is written over the table, unrolled or moved into a helper.
+func ruleRomanSum(e *Env, rule string) {
+	dp := e.Fn(rule, "roman", "DefaultParser")
+	if dp == nil {
+		return
+	}
+	site := flow.FnName(dp)
+	pos := e.Pos(dp)
+	pg := e.F("roman", "parseGroup")
+	var perm []int
+	if pg != nil {
+		perm = e.ParamPerm("roman", "parseGroup", pg)
+	}
+	isCap := func(v pred.Val) (string, bool) {
+		if s, ok := v.(pred.Sym); ok && strings.HasPrefix(s.Name, "cap") {
+			return s.Name, true
+		}
+		return "", false
+	}
+	flat := func(v pred.Val) []string {
+		if sv, ok := v.(*pred.StructV); ok {
+			var out []string
+			for _, f := range sv.Fields {
+				out = append(out, f.String())
+			}
+			return out
+		}
+		return []string{v.String()}
+	}
+	fallback := func(fn *ssa.Function, args []pred.Val) (pred.Val, bool, error) {
+		// the value function: a function of the module that receives one capture
+		capName := ""
+		for _, a := range args {
+			if n, ok := isCap(a); ok {
+				if capName != "" {
+					return nil, false, nil
+				}
+				capName = n
+			}
+		}
+		if capName == "" {
+			return nil, false, nil
+		}
+		ordered := args
+		if pg != nil && flow.Origin(fn) == flow.Origin(pg) && perm != nil && len(perm) == len(args) {
+			ordered = make([]pred.Val, len(args))
+			for i, j := range perm {
+				ordered[i] = args[j]
+			}
+		}
+		parts := []string{capName}
+		for _, a := range ordered {
+			if _, ok := isCap(a); ok {
+				continue
+			}
+			parts = append(parts, flat(a)...)
+		}
+		return pred.Term{Fn: "value{" + strings.Join(parts, ",") + "}"}, true, nil
+	}
+	caps := func() *pred.SliceV {
+		sv := &pred.SliceV{}
+		for i := 0; i < 5; i++ {
+			sv.Elems = append(sv.Elems, &pred.Cell{V: pred.Sym{Name: fmt.Sprintf("cap%d", i)}, Name: "capture"})
+		}
+		return sv
+	}
+	sums := map[string]pred.Summary{}
+	for _, n := range []string{"(*regexp.Regexp).FindSubmatch", "(*regexp.Regexp).FindStringSubmatch"} {
+		sums[n] = func(ev *pred.Evaluator, args []pred.Val) (pred.Val, error) {
+			if len(args) != 2 || args[1].String() != "input" {
+				return nil, &pred.Undecided{Reason: "the pattern is not matched against the whole input"}
+			}
+			return caps(), nil
+		}
+	}
+	fixed := func(a, b pred.Val) (int, bool, bool) {
+		as, bs := a.String(), b.String()
+		switch {
+		case as == "len(input)" && bs == "0":
+			return 1, true, true
+		case as == "*roman.MaxInputLength" && bs == "0":
+			return 0, true, true
+		}
+		return 0, false, false
+	}
+	// an empty capture may be skipped before the value function is asked (it is worth 0: C10.value's len==0 leaf)
+	keyOf := func(a, b pred.Val) (string, bool) {
+		if tm, ok := a.(pred.Term); ok && tm.Fn == "len" && len(tm.Args) == 1 {
+			if n, ok := isCap(tm.Args[0]); ok && b.String() == "0" {
+				return "len(" + n + ")==0", true
+			}
+		}
+		return "", false
+	}
+	mk := func() []pred.Val { return []pred.Val{pred.Sym{Name: "input"}, pred.Sym{Name: "r"}} }
+	leaves, err := extractTreeFull(e.P.SSA, dp, mk, sums, fixed, keyOf, binDomain, e.globalTables(), fallback)
+	if err != nil {
+		e.S.Unk(rule, site, "sum", "not evaluable: "+err.Error(), pos)
+		return
+	}
+	bad, und := "", ""
+	for _, lf := range leaves {
+		if lf.Err != nil {
+			und = lf.Err.Error()
+			break
+		}
+		t, ok := lf.Out.Ret.(pred.Tuple)
+		if lf.Out.Panic || !ok || len(t) != 2 || t[1].String() != "nil" {
+			bad = "a matched input does not yield (number, nil): " + lf.Out.Ret.String()
+			break
+		}
+		have := map[string]int{}
+		var walk func(v pred.Val)
+		walk = func(v pred.Val) {
+			if tm, ok := v.(pred.Term); ok && tm.Fn == "+" && len(tm.Args) == 2 {
+				walk(tm.Args[0])
+				walk(tm.Args[1])
+				return
+			}
+			if c, ok := v.(pred.Const); ok && c.V != nil && c.V.ExactString() == "0" {
+				return
+			}
+			s := v.String()
+			if s == "*(1000,len(cap1))" {
+				s = "*(len(cap1),1000)"
+			}
+			have[s]++
+		}
+		walk(t[0])
+		want := map[string]string{"*(len(cap1),1000)": "", "value{cap2,100,68,77}()": "cap2", "value{cap3,10,76,67}()": "cap3", "value{cap4,1,86,88}()": "cap4"}
+		for w, capN := range want {
+			n := have[w]
+			delete(have, w)
+			emptyCap := capN != "" && lf.Assign["len("+capN+")==0"] == 0 && func() bool { _, asked := lf.Assign["len("+capN+")==0"]; return asked }()
+			if n == 1 || n == 0 && emptyCap {
+				continue
+			}
+			bad = fmt.Sprintf("the term %s occurs %d time(s) in the parsed number {%s}", w, n, lf.String())
+		}
+		for extra := range have {
+			bad = fmt.Sprintf("the parsed number contains the foreign term %s {%s}", extra, lf.String())
+		}
+		if bad != "" {
+			break
+		}
+	}
+	switch {
+	case und != "":
+		e.S.Unk(rule, site, "sum", "not evaluable: "+und, pos)
+	case bad != "":
+		e.S.Bad(rule, site, "sum", bad+"; documented len(capture 1)×1000 + value(capture 2; 100,'D','M') + value(capture 3; 10,'L','C') + value(capture 4; 1,'V','X'), each once", pos, "")
+	default:
+		e.S.Ok(rule, site, "sum", "= len(capture 1)×1000 + value(capture 2; 100,'D','M') + value(capture 3; 10,'L','C') + value(capture 4; 1,'V','X')", pos)
+	}
 }
